@@ -175,6 +175,28 @@ fn family_b(ctx: &mut Ctx, text: &str, names: &[String]) {
             }
         }
     }
+    // word spellings (and, or, not, ..) with a lone CR, CRLF or a tab as the only separator
+    // between tokens: any such character separates tokens, on every channel
+    if let Ok(a) = refl::parse(text) {
+        let toks = refl::to_tokens(&a, refl::MINIMAL);
+        let wordy = refl::render(&toks, &mut |n| n - 1);
+        if wordy.contains(' ') {
+            for sep in ["\r", "\r\n", "\t"] {
+                let t = wordy.replace(' ', sep) + sep;
+                let mut wouts = vec![];
+                for ch in [Channel::Evaluate, Channel::File, Channel::Stdin] {
+                    let mut inv = base(&t, vec!["-t".into()]);
+                    inv.channel = ch;
+                    wouts.push(check_run(ctx, &inv, Mode::Table(Filter::Any)));
+                }
+                if let (Some(x), Some(y), Some(z)) = (&wouts[0], &wouts[1], &wouts[2]) {
+                    if x != y || x != z {
+                        ctx.violation(format!("{TAG} channels (separator {sep:?}): {wordy}"), "stdout differs between --evaluate, file and stdin".into(), case(&base(&t, vec!["-t".into()]), Mode::Table(Filter::Any)));
+                    }
+                }
+            }
+        }
+    }
     // benchmark repetitions: identical stdout
     for n in ["1", "3"] {
         let inv = base(text, vec!["-t".into(), "-b".into(), n.into()]);
